@@ -521,12 +521,15 @@ theorem restart_diverges :
     account view (candidate_vote_tx.go, tx_processor.go changeCandidateVotes, log_compressor.go):
     one entry per address; a registered account whose votes differ from the parent's view (or that is
     newly registered) carries a VotesLog; only candidate accounts carry VotesLogs; a registered
-    account never loses its candidate profile. -/
+    account never loses its candidate profile; and `no_other`: the isCandidate entry of a changed
+    account with a profile is "true" or "false" — NOT guaranteed by the transaction layer today
+    (buildProfile keeps any user-supplied string on first registration): see `odd_flag_restart_diverges`. -/
 structure Consistent (accts : List Acct) (chs : List Change) : Prop where
   nodup : (chs.map (·.addr)).Nodup
   yes_unlogged : ∀ c ∈ chs, c.flag = Flag.yes → c.logged = false → (⟨c.addr, c.votes⟩ : Cand) ∈ registered accts
   logged_cand : ∀ c ∈ chs, c.logged = true → c.flag ≠ Flag.none
   none_stays : ∀ c ∈ chs, c.flag = Flag.none → ∀ v, (⟨c.addr, v⟩ : Cand) ∉ registered accts
+  no_other : ∀ c ∈ chs, c.flag ≠ Flag.other
 
 /-- the invariant of a block: one account per address, one index entry per address, the index holds
     every registered candidate with the votes of the view, the published list is the specification. -/
@@ -635,6 +638,7 @@ theorem registered_step {accts : List Acct} {chs : List Change} (hA : AcctNodup 
         | none => exact absurd hfl (hC.logged_cand c hc hlog)
         | yes => rfl
         | no => exact absurd ((memU _).mpr ⟨c, hc, hfl, ha⟩) hxU
+        | other => exact absurd hfl (hC.no_other c hc)
       exact ⟨toAcct c, (memA' _).mpr (Or.inl ⟨c, hc, rfl⟩), hf, ha, hv⟩
     · obtain ⟨y, hyA, hf, ha, hv⟩ := mem_registered.mp hxR
       by_cases hex : ∃ c ∈ chs, c.addr = x.addr
@@ -644,6 +648,7 @@ theorem registered_step {accts : List Acct} {chs : List Change} (hA : AcctNodup 
           have hx : x = ⟨c.addr, x.votes⟩ := by cases x; simp_all
           exact absurd (hx ▸ hxR) (hC.none_stays c hc hfl x.votes)
         | no => exact absurd ((memU _).mpr ⟨c, hc, hfl, hca⟩) hxU
+        | other => exact absurd hfl (hC.no_other c hc)
         | yes =>
           cases hlog : c.logged with
           | true =>
@@ -738,7 +743,7 @@ theorem updateTopFixed_history (max : Nat) (hmax : 1 ≤ max) (path : List (List
 
 /-- non-vacuity: the tie path is consistent, and the theorem applies to it -/
 example : ConsistentPath [] [[⟨9, .yes, 30, true⟩, ⟨5, .yes, 20, true⟩, ⟨7, .yes, 20, true⟩], [⟨9, .yes, 20, true⟩]] := by
-  refine ⟨⟨by decide, ?_, ?_, ?_⟩, ⟨by decide, ?_, ?_, ?_⟩, trivial⟩ <;> simp [acctsAfter, registered, putAcct]
+  refine ⟨⟨by decide, ?_, ?_, ?_, ?_⟩, ⟨by decide, ?_, ?_, ?_, ?_⟩, trivial⟩ <;> simp [acctsAfter, registered, putAcct]
 
 /-- an index (or persisted list) that holds every registered candidate of a view, restricted to the
     accounts registered in that view, enumerates exactly the registered candidates -/
@@ -957,6 +962,7 @@ theorem commitPersist_ok {persist : List Cand} {accts : List Acct} {chs : List C
       | none => exact absurd hfl hf
       | yes => rfl
       | no => exact absurd hfl (hN c hc)
+      | other => exact absurd hfl (hC.no_other c hc)
     · rintro ⟨c, hc, hf, h1, h2⟩
       exact ⟨c, ⟨hc, by rw [hf]; decide⟩, h1, h2⟩
   have memL : ∀ x : Cand, x ∈ logsOf chs [] ↔ ∃ c ∈ chs, c.logged = true ∧ c.addr = x.addr ∧ c.votes = x.votes := by
@@ -971,6 +977,7 @@ theorem commitPersist_ok {persist : List Cand} {accts : List Acct} {chs : List C
     | none => exact absurd hfl (hC.logged_cand c hc hl)
     | yes => rfl
     | no => exact absurd hfl (hN c hc)
+    | other => exact absurd hfl (hC.no_other c hc)
   refine ⟨hYeq ▸ addrNodup_foldl_putCand _ hP.nodup, ?_⟩
   intro x
   unfold acctsAfter
@@ -1053,5 +1060,45 @@ theorem restart_same_as_continuous_noUnreg (max : Nat) (hmax : 1 ≤ max)
     apply filter_registered_perm hIs.accts hps.nodup
     intro x hx; exact (hps.exact x).mpr hx
   exact restarted_eq_continuous true max _ s hidx htop
+
+/-! ## review follow-up: states outside `Consistent`, and crash restarts -/
+
+/-- (R) REFUTED for the CURRENT code when the transaction layer lets an isCandidate string other than
+    "true"/"false" through (buildProfile keeps a user-supplied value on first registration): max 2;
+    account 5 registers with "true" and 20 votes, account 7 with "yes" (`Flag.other`) and 30 votes.
+    The running node publishes `[7:30, 5:20]` (collectUnregisters only removes "false"), blockCommit
+    persists both (profile non-empty), start-up keeps only "true": the restarted node publishes
+    `[5:20]`.  Two honest nodes would write different deputy lists. -/
+theorem odd_flag_restart_diverges :
+    let chs : List Change := [⟨5, .yes, 20, true⟩, ⟨7, .other, 30, true⟩]
+    ∃ b, applyBlock true 2 0 {} chs [] = .ok b ∧ b.top = [⟨7, 30⟩, ⟨5, 20⟩] ∧
+      commitPersist [] chs = [⟨7, 30⟩, ⟨5, 20⟩] ∧
+      (restartBlk true 2 (commitPersist [] chs) b).top = [⟨5, 20⟩] ∧
+      topOf 2 (registered b.accts) = [⟨5, 20⟩] := by
+  intro chs
+  exact ⟨_, rfl, by decide, by decide, by decide, by decide⟩
+
+/-- (R) REFUTED for crash restarts of the CURRENT code: `blockCommit` moves the stable pointer
+    (SetCurrentBlock) and flushes the candidate list afterwards; a crash in between restarts the node
+    on the new stable block with the candidate list of its parent (C08's open finding
+    pointer-moved-context-not-flushed).  Max 2; 9(30), 5(20), 7(10) stable; the next block un-registers
+    9 and the crash hits its commit: the persisted list still says 9:30.  The restarted node's list
+    `[5:20, 7:10]` is right (start-up filters by the stored account), but its rebuilt index holds 9:30,
+    and when 5 then drops to 5 votes the re-rank-all publishes the un-registered candidate with its
+    old votes, `[9:30, 7:10]`; the node that did not crash publishes `[7:10, 5:5]`. -/
+theorem crash_restart_diverges :
+    let chs1 : List Change := [⟨9, .yes, 30, true⟩, ⟨5, .yes, 20, true⟩, ⟨7, .yes, 10, true⟩]
+    let chs2 : List Change := [⟨9, .no, 0, true⟩]
+    let chs3 : List Change := [⟨5, .yes, 5, true⟩]
+    let stale := commitPersist [] chs1           -- what context.data holds after the crash
+    ∃ b1 b2 live crashed,
+      applyBlock true 2 0 {} chs1 [] = .ok b1 ∧ applyBlock true 2 1 b1 chs2 [] = .ok b2 ∧
+      commitPersist stale chs2 ≠ stale ∧
+      (restartBlk true 2 stale b2).top = b2.top ∧
+      applyBlock true 2 2 b2 chs3 [] = .ok live ∧
+      applyBlock true 2 2 (restartBlk true 2 stale b2) chs3 [] = .ok crashed ∧
+      live.top = [⟨7, 10⟩, ⟨5, 5⟩] ∧ crashed.top = [⟨9, 30⟩, ⟨7, 10⟩] := by
+  intro chs1 chs2 chs3 stale
+  exact ⟨_, _, _, _, rfl, rfl, by decide, by decide, rfl, rfl, by decide, by decide⟩
 
 end LemoProofs.C10
